@@ -10,6 +10,7 @@ import (
 	"math/big"
 	"reflect"
 	"sort"
+	"strconv"
 	"strings"
 
 	"github.com/zclconf/go-cty/cty"
@@ -201,6 +202,7 @@ type GenOpts struct {
 	Refine    bool
 	NoSet     bool
 	Collide   bool // collision-biased numbers
+	Fam       int  // > 0: half of the strings and numbers come from one family of truly hash-colliding values (collisions.go)
 	MarkDense bool // every second node marked instead of every sixth
 	MaxLen    int
 }
@@ -575,9 +577,17 @@ func genValue(c *Ctx, t *TDesc, depth int, o GenOpts) *VDesc {
 	case KBool:
 		v.B = c.G(2) == 1
 	case KNumber:
-		v.Num = genNum(c, o.Collide)
+		if fam := familyInts(o.Fam); fam != nil && c.G(2) == 0 {
+			v.Num = NumDesc{Mode: NumParse, Text: strconv.FormatInt(fam[c.G(len(fam))], 10)}
+		} else {
+			v.Num = genNum(c, o.Collide)
+		}
 	case KString:
-		v.S = genStr(c)
+		if fam := familyStrings(o.Fam); fam != nil && c.G(2) == 0 {
+			v.S = fam[c.G(len(fam))]
+		} else {
+			v.S = genStr(c)
+		}
 	case KCapsule:
 		v.Cap = c.G(len(capPayloads[t.Cap]))
 	case KList, KSet:
